@@ -617,9 +617,14 @@ class SeriesWorld(World):
         a = (m.hi + 1 + rng.choice([0, 0, 0, -1, 1])) if m.lo is not None else self.cfg["base"]
         p = rng.choice([1, 1, 2])
         coeffs = [rng.choice([0.5, 0.9, -0.3, 1.0]) for _ in range(p)]
-        return self._with_form(rng, {"op": "extrap", "args": {
+        step = self._with_form(rng, {"op": "extrap", "args": {
             "h": h, "coeffs": coeffs, "a": a, "n": rng.randint(1, 4),
             "intercept": rng.choice([0, 1.0, -0.5]), "log": rng.random() < 0.2}})
+        if m.lo is not None and m.n > 0 and rng.random() < 0.25:
+            # the span given relative to the series itself: irispie.end+1 >> irispie.end+3, or up to a fixed period
+            off = rng.choice([1, 1, 0, -1])
+            step["args"]["ctx"] = [off, off + step["args"]["n"] - 1, rng.random() < 0.5]
+        return step
 
     def _gen_nvar(self, actor, val, rng):
         h = self._pick(rng, actor, self._native)
@@ -1280,8 +1285,17 @@ class SeriesWorld(World):
         o = self.live[h]
         m = o.model
         freq = m.freq if m.lo is not None else self.freq
-        exp = sm.t_extrapolate(m, a["coeffs"], a["a"], a["n"], a["intercept"], a["log"])
-        span = ir.Span(P(freq, a["a"]), P(freq, a["a"] + a["n"] - 1))
+        start_serial = a["a"]
+        if a.get("ctx") and m.lo is not None and m.n > 0:
+            off_a, off_b, fixed_end = a["ctx"]
+            start_serial = m.hi + off_a
+            first = ir.end + off_a if off_a else ir.end
+            last = P(freq, m.hi + off_b) if fixed_end else (ir.end + off_b if off_b else ir.end)
+            span = first >> last
+            self.probes["extrapolation_on_contextual_span"] += 1
+        else:
+            span = ir.Span(P(freq, a["a"]), P(freq, a["a"] + a["n"] - 1))
+        exp = sm.t_extrapolate(m, a["coeffs"], start_serial, a["n"], a["intercept"], a["log"])
         kw = dict(intercept=a["intercept"], log=a["log"])
         return self._method_or_func(step, "extrap", [("recv", h)], h, exp,
                                     lambda: o.real.extrapolate(list(a["coeffs"]), span, **kw),
